@@ -32,22 +32,6 @@ def corrupted (w : World) : Bool :=
     | none => false))
 
 
-/-! ### C06 — one API call of a reconcile fails (judged on the implementation; the one-step model has no fault parameter) -/
-
-/-- `a` is a subsequence of `b` -/
-def isSubseq : List String → List String → Bool
-  | [], _ => true
-  | _ :: _, [] => false
-  | x :: xs, y :: ys => if x == y then isSubseq xs ys else isSubseq (x :: xs) ys
-
-/-- **C06** — a reconcile in which an API call failed (`hit`) reports the failure (an error is returned, so the request is
-    retried): it never goes on as if the call had succeeded. -/
-def faultReported (hit : Bool) (err : Bool) : Bool := !hit || err
-
-/-- **C06** — … and what it wrote before and after the failed call is part of what the undisturbed reconcile writes
-    from the same state, in the same order: a failed call never makes the controller take a *different* action. -/
-def faultWritesWithin (hit : Bool) (writes baseWrites : List String) : Bool := !hit || isSubseq writes baseWrites
-
 end RV.Oracle.RolloutSM
 
 namespace RV.Oracle.RolloutSM
